@@ -148,14 +148,14 @@ pub fn gen_case(ch: &mut Choices, p: &Profile) -> SimCase {
                 }
                 1 => {
                     // an equivocating leader reaches everybody with both proposals; the two possible certificates are revealed in different orders
-                    actions.push(Action::Equivocate { to_a: u16::MAX, to_b: u16::MAX });
+                    actions.push(Action::Equivocate { to_a: if ch.bool() { u16::MAX } else { ch.raw() }, to_b: u16::MAX });
                     actions.push(Action::Flush { mask: u16::MAX, kinds: 2, limit: 1000, rounds: 1 });
                     actions.push(Action::Complete { reveal: u16::MAX, alt_order: true });
                     actions.push(all(2));
                 }
                 2 => {
-                    actions.push(Action::Equivocate { to_a: ch.raw(), to_b: ch.raw() });
-                    actions.push(Action::Forge { kind: ch.below(4) as u8, to: mask(ch) });
+                    actions.push(Action::Equivocate { to_a: ch.raw(), to_b: u16::MAX });
+                    actions.push(Action::Forge { kind: ch.below(4) as u8, to: u16::MAX });
                     actions.push(all(2));
                 }
                 _ => {
@@ -378,10 +378,15 @@ pub async fn apply(w: &mut World, a: &Action, info: &mut RunInfo) -> Result<(), 
         Action::Forge { kind, to } => {
             let ms = w.forge(*kind);
             info.forged += ms.len();
-            for i in nodes_in(w, *to) {
-                for m in &ms {
+            for (k, i) in nodes_in(w, *to).into_iter().enumerate() {
+                // different nodes see the forged certificates in different orders
+                let mut order = ms.clone();
+                if k % 2 == 1 {
+                    order.reverse();
+                }
+                for m in order {
                     if w.ready(i) {
-                        w.deliver(i, *m, false).await;
+                        w.deliver(i, m, false).await;
                     }
                 }
             }
